@@ -40,7 +40,110 @@ theorem wf_append (a b : Forest) : (a ++ b).wf = (a.wf && b.wf) := by
 
 end Forest
 
-/-! ### `create` is `createU` guarded by the uniqueness checks -/
+/-! ### filtering and de-duplication -/
+
+namespace Forest
+
+theorem any_filter_not (p : Observer → Forest → Bool) (x : Forest) :
+    (x.filter (fun o k => !p o k)).any p = false := by
+  induction x with
+  | nil => rfl
+  | cons o k r _ ihr =>
+    simp only [filter]
+    by_cases h : p o k = true
+    · simp [h, ihr]
+    · have h' : p o k = false := by simpa using h
+      simp [h', any, ihr]
+
+theorem any_filter_imp (p q : Observer → Forest → Bool) (x : Forest)
+    (h : (x.filter q).any p = true) : x.any p = true := by
+  induction x with
+  | nil => simpa [filter] using h
+  | cons o k r _ ihr =>
+    simp only [filter] at h
+    split at h
+    · simp only [any, Bool.or_eq_true] at h ⊢
+      exact h.imp id ihr
+    · simp [any, ihr h]
+
+theorem unique_filter (q : Observer → Forest → Bool) (x : Forest) (h : x.unique = true) :
+    (x.filter q).unique = true := by
+  induction x with
+  | nil => rfl
+  | cons o k r _ ihr =>
+    simp only [unique, Bool.and_eq_true, Bool.not_eq_true'] at h
+    simp only [filter]
+    split
+    · simp only [unique, Bool.and_eq_true, Bool.not_eq_true']
+      refine ⟨?_, ihr h.2⟩
+      cases hh : (r.filter q).any (fun o' k' => graphEq o k o' k') with
+      | false => rfl
+      | true => rw [any_filter_imp _ _ _ hh] at h; exact absurd h.1 (by simp)
+    · exact ihr h.2
+
+/-- the branches handed to `ObserverGraph` are always pairwise different -/
+theorem unique_dedupe (x : Forest) : x.dedupe.unique = true := by
+  induction x with
+  | nil => rfl
+  | cons o k r _ ihr =>
+    simp only [dedupe, unique, Bool.and_eq_true, Bool.not_eq_true']
+    exact ⟨any_filter_not (fun o' k' => graphEq o k o' k') _, unique_filter _ _ ihr⟩
+
+theorem wf_filter (q : Observer → Forest → Bool) (x : Forest) (h : x.wf = true) :
+    (x.filter q).wf = true := by
+  induction x with
+  | nil => rfl
+  | cons o k r _ ihr =>
+    simp only [wf, Bool.and_eq_true] at h
+    simp only [filter]
+    split
+    · simp [wf, h.1.1, h.1.2, ihr h.2]
+    · exact ihr h.2
+
+theorem wf_dedupe (x : Forest) (h : x.wf = true) : x.dedupe.wf = true := by
+  induction x with
+  | nil => rfl
+  | cons o k r _ ihr =>
+    simp only [wf, Bool.and_eq_true] at h
+    simp [dedupe, wf, h.1.1, h.1.2, wf_filter _ _ (ihr h.2)]
+
+theorem filter_not_eq_self (p : Observer → Forest → Bool) (x : Forest) (h : x.any p = false) :
+    x.filter (fun o k => !p o k) = x := by
+  induction x with
+  | nil => rfl
+  | cons o k r _ ihr =>
+    simp only [any, Bool.or_eq_false_iff] at h
+    simp [filter, h.1, ihr h.2]
+
+/-- nothing to drop when the branches are already pairwise different -/
+theorem dedupe_of_unique (x : Forest) (h : x.unique = true) : x.dedupe = x := by
+  induction x with
+  | nil => rfl
+  | cons o k r _ ihr =>
+    simp only [unique, Bool.and_eq_true, Bool.not_eq_true'] at h
+    simp [dedupe, ihr h.2, filter_not_eq_self _ _ h.1]
+
+end Forest
+
+/-! ### `create` never fails; it returns `createD` -/
+
+/-- **`_create_graphs` is total** (after fix 4a0994c): the uniqueness check of
+`ObserverGraph.__init__` always passes. -/
+theorem create_total (e : Expr) : ∀ br, create e br = .ok (createD e br) := by
+  induction e with
+  | single o => intro br; simp [create, createD, Forest.unique_dedupe]
+  | series a b iha ihb => intro br; simp [create, createD, ihb br, iha]
+  | parallel a b iha ihb => intro br; simp [create, createD, iha br, ihb br]
+
+/-- every node of every compiled graph has pairwise different children
+(the invariant `ObserverGraph` asks for) -/
+theorem wf_createD (e : Expr) : ∀ br, br.wf = true → (createD e br).wf = true := by
+  induction e with
+  | single o =>
+    intro br h
+    simp [createD, Forest.wf, Forest.unique_dedupe, Forest.wf_dedupe br h]
+  | series a b iha ihb => intro br h; exact iha _ (ihb br h)
+  | parallel a b iha ihb => intro br h; simp [createD, Forest.wf_append, iha br h, ihb br h]
 
 theorem createU_ne_nil (e : Expr) (br : Forest) : ∃ o k r, createU e br = .cons o k r := by
   induction e generalizing br with
@@ -54,37 +157,19 @@ theorem tails_createU (e : Expr) (br : Forest) : (createU e br).tails = (createU
   obtain ⟨o, k, r, h⟩ := createU_ne_nil e br
   rw [h]; rfl
 
-/-- a successful `create` returns what `createU` builds -/
-theorem create_ok (e : Expr) : ∀ (br f : Forest), create e br = .ok f → f = createU e br := by
-  induction e with
-  | single o =>
-    intro br f h
-    simp only [create] at h
-    split at h
-    · cases h; rfl
-    · cases h
-  | series a b iha ihb =>
-    intro br f h
-    simp only [create] at h
-    split at h
-    · cases h
-    · rename_i b' hb
-      rw [ihb _ _ hb] at h
-      simpa [createU] using iha _ _ h
-  | parallel a b iha ihb =>
-    intro br f h
-    simp only [create] at h
-    split at h
-    · cases h
-    · rename_i l hl
-      split at h
-      · cases h
-      · rename_i r hr
-        cases h
-        simp [createU, iha _ _ hl, ihb _ _ hr]
+theorem createD_ne_nil (e : Expr) (br : Forest) : ∃ o k r, createD e br = .cons o k r := by
+  induction e generalizing br with
+  | single o => exact ⟨o, br.dedupe, .nil, rfl⟩
+  | series a b iha _ => exact iha _
+  | parallel a b iha _ =>
+    obtain ⟨o, k, r, h⟩ := iha br
+    exact ⟨o, k, r ++ createD b br, by simp [createD, h]⟩
 
-/-- every expression hangs `br` below at least one node, so a well-formed result
-needs `br` itself well-formed and duplicate-free -/
+theorem tails_createD (e : Expr) (br : Forest) : (createD e br).tails = (createD e br).paths := by
+  obtain ⟨o, k, r, h⟩ := createD_ne_nil e br
+  rw [h]; rfl
+
+/-- every expression hangs `br` below at least one node -/
 theorem wf_createU_imp (e : Expr) : ∀ br, (createU e br).wf = true → br.unique = true ∧ br.wf = true := by
   induction e with
   | single o =>
@@ -99,31 +184,24 @@ theorem wf_createU_imp (e : Expr) : ∀ br, (createU e br).wf = true → br.uniq
     simp only [createU, Forest.wf_append, Bool.and_eq_true] at h
     exact iha _ h.1
 
-/-- **`create` fails exactly when the unchecked graphs have a node with two equal
-children** (given branches that are themselves well-formed). -/
-theorem create_eq (e : Expr) : ∀ br, br.wf = true →
-    create e br = if (createU e br).wf then .ok (createU e br) else .error .valueError := by
+/-- when the graphs as written have no node with two equal children, nothing is
+dropped: the result is the graphs as written -/
+theorem createD_eq_createU (e : Expr) : ∀ br, (createU e br).wf = true → createD e br = createU e br := by
   induction e with
   | single o =>
-    intro br hbr
-    simp only [create, createU, Forest.wf, hbr, Bool.and_true]
+    intro br h
+    have := wf_createU_imp (.single o) br h
+    simp [createD, createU, Forest.dedupe_of_unique br this.1]
   | series a b iha ihb =>
-    intro br hbr
-    simp only [create, createU]
-    rw [ihb br hbr]
-    by_cases hb : (createU b br).wf = true
-    · simp only [hb, if_true]
-      exact iha _ hb
-    · have : (createU a (createU b br)).wf = false := by
-        cases h : (createU a (createU b br)).wf
-        · rfl
-        · exact absurd (wf_createU_imp a _ h).2 hb
-      simp [hb, this]
+    intro br h
+    have hb := (wf_createU_imp a _ h).2
+    simp only [createD, createU]
+    rw [ihb br hb]
+    exact iha _ h
   | parallel a b iha ihb =>
-    intro br hbr
-    simp only [create, createU, Forest.wf_append]
-    rw [iha br hbr, ihb br hbr]
-    cases (createU a br).wf <;> cases (createU b br).wf <;> rfl
+    intro br h
+    simp only [createU, Forest.wf_append, Bool.and_eq_true] at h
+    simp [createD, createU, iha br h.1, ihb br h.2]
 
 /-! ### paths of the compiled graphs -/
 
